@@ -1,5 +1,6 @@
 import JT.Proof.Codec
 import JT.Proof.Codec3
+import JT.Proof.Params
 /-!
 # C07 — message body round trip
 
@@ -84,5 +85,24 @@ theorem more_reencode_identical :
     (∀ b v, parseP0x9207 b = .ok v → encodeP0x9207 v = b) :=
   ⟨encode_parseP0x8100, encode_parseP0x9101, encode_parseP0x9201, encode_parseP0x9206, encode_parseT0x1205,
    encode_parseP0x9102, encode_parseP0x9207⟩
+
+/-- **terminal parameters (0x8103 / 0x0104), every parameter ID**: (a) any list of well-framed items — 32-bit ID, one
+length byte equal to the content's length, the width the regenerated table demands for that ID, not the "absent"
+pattern ID 0 / length 0 — encoded one after the other parses back to exactly that list, with the count byte
+`length mod 256`; (b) conversely an accepted list IS the concatenation of the items returned, in order (nothing dropped,
+merged or reordered), each with the width its ID demands, and the count byte is their number mod 256.
+`encodeDetails` (the reflection walk: struct order, unknown IDs ascending) is tied by the correspondence check. -/
+theorem terminal_params_framing :
+    (∀ items : List Params.Item, (∀ it ∈ items, Params.ItemWF it) →
+      Params.parseDetails (items.length % 256) (items.flatMap Params.encodeItem) = .ok items) ∧
+    (∀ count body items, count < 256 → Params.parseDetails count body = .ok items →
+      items.flatMap Params.frame = body ∧ (∀ it ∈ items, Params.ItemOK it) ∧ count = items.length % 256) :=
+  ⟨Params.parseDetails_encode, fun c b i hc h => Params.parseDetails_sound c b i hc h⟩
+
+/-- Non-vacuity: a DWORD, a string and an unknown parameter are well-framed; their encoding is the expected bytes -/
+example : Params.ItemWF ⟨1, 4, [0,0,0,60]⟩ ∧ Params.ItemWF ⟨0x10, 2, [0x61,0x62]⟩ ∧ Params.ItemWF ⟨0xf000, 1, [9]⟩ ∧
+    Params.encodeItem ⟨1, 4, [0,0,0,60]⟩ = [0,0,0,1, 4, 0,0,0,60] := by
+  refine ⟨⟨by decide, rfl, by decide, by decide, by decide⟩, ⟨by decide, rfl, by decide, by decide, by decide⟩,
+    ⟨by decide, rfl, by decide, by decide, by decide⟩, by decide⟩
 
 end JT.C07
